@@ -116,6 +116,8 @@ struct RoomWriter {
     room: Option<u64>,
     // a writer may accept fewer bytes than it is offered (pipes, terminals do): at most `chunk` bytes per call
     chunk: Option<u64>,
+    // the kind of the error a full writer answers with
+    kind: std::io::ErrorKind,
 }
 impl Write for RoomWriter {
     fn write(&mut self, buf: &[u8]) -> std::io::Result<usize> {
@@ -135,7 +137,7 @@ impl Write for RoomWriter {
                     if buf.is_empty() {
                         return Ok(0);
                     }
-                    return Err(std::io::Error::new(std::io::ErrorKind::Other, "injected write failure"));
+                    return Err(std::io::Error::new(self.kind, "injected write failure"));
                 }
                 let n = std::cmp::min(buf.len() as u64, r - used) as usize;
                 d.extend_from_slice(&buf[..n]);
@@ -145,6 +147,17 @@ impl Write for RoomWriter {
     }
     fn flush(&mut self) -> std::io::Result<()> {
         Ok(())
+    }
+}
+
+fn write_kind(case: &Value) -> std::io::ErrorKind {
+    match case["out_fail_kind"].as_str().unwrap_or("other") {
+        "brokenpipe" => std::io::ErrorKind::BrokenPipe,
+        "wouldblock" => std::io::ErrorKind::WouldBlock,
+        "writezero" => std::io::ErrorKind::WriteZero,
+        "storagefull" => std::io::ErrorKind::StorageFull,
+        "connectionreset" => std::io::ErrorKind::ConnectionReset,
+        _ => std::io::ErrorKind::Other,
     }
 }
 
@@ -204,11 +217,13 @@ fn run_case(case: &Value, tmpdir: &str) -> Value {
         data: out.clone(),
         room: case["out_room"].as_u64(),
         chunk: case["out_chunk"].as_u64(),
+        kind: write_kind(case),
     }));
     let stderr: Rc<RefCell<dyn Write + Send>> = Rc::new(RefCell::new(RoomWriter {
         data: err.clone(),
         room: case["err_room"].as_u64(),
         chunk: case["out_chunk"].as_u64(),
+        kind: write_kind(case),
     }));
     let inp0 = if use_files { None } else { inputs.get(0).cloned() };
     let sh = shared.clone();
